@@ -31,7 +31,7 @@ PROPS["C09"] = dict(
     harness="c09_cmp.c", level="exploration",
     technique="runtime oracle: reference orders computed in C over boundary grids and random pairs/triples "
               "(sign, antisymmetry, reflexivity, transitivity, predicate agreement) under ASan+UBSan",
-    level_text="Exploration: complete boundary grids (27 Int, 28 Float, 24 String values, 29 types: all pairs, all "
+    level_text="Exploration: complete boundary grids (27 Int, 28 Float, 24 String values, 52 types incl. 23 run-time types whose names are prefixes of one another: all pairs, all "
                "Int/Float triples) plus ~100k (thorough: millions of) random pairs and triples of Int, Float, String, "
                "plain structs, Array/List/Tuple in every kind combination and Tree; UBSan watches the arithmetic "
                "inside the comparison functions. Values are sampled, the grids are exhaustive.",
@@ -42,7 +42,8 @@ PROPS["C09"] = dict(
     floors={"quick": {"int_pairs_diff_beyond_32_bits": 100, "int_pairs_diff_beyond_64_bits": 10,
                       "float_pairs_with_denormal": 10, "strings_with_high_bytes": 10,
                       "string_pairs_sharing_prefix": 10, "seq_pairs_cross_kind": 10,
-                      "seq_pairs_different_length": 10, "tree_pairs": 10, "boundary_keys_looked_up": 1}},
+                      "seq_pairs_different_length": 10, "tree_pairs": 10, "boundary_keys_looked_up": 1,
+                      "type_pairs_one_name_a_prefix_of_the_other": 40, "type_triples_with_related_names": 1000}},
     rule="case = 40 Int, 30 Float, 30 String, 20 plain-struct, 8 sequence and 6 Tree pairs+triples drawn from "
          "boundary-biased generators; distinct = hash of the first values of each kind; non-trivial = contains an "
          "Int pair whose difference does not fit in 32 bits",
@@ -156,7 +157,7 @@ PROPS["C14"] = dict(
     thorough=[("asan", 16, 20000), ("plain", 16, 40000), ("memcheck", 8, 75, {"budget": 900})],
     floors={"quick": {"piece_length_sweep_points": 2560, "spec_at_very_start": 100, "spec_at_very_end": 100, "adjacent_specs": 100,
                       "nonzero_start_positions": 100, "file_sink_runs": 100, "too_few_argument_runs": 100,
-                      "items_show": 100, "items_float": 100, "items_int": 100, "items_string": 100}},
+                      "items_show": 100, "items_float": 100, "items_int": 100, "items_string": 100, "shown_tuples_holding_one_object_twice": 100}},
     rule="case = one generated format string of 1-7 items with its arguments, printed to a String at a chosen start "
          "position, to a File, and once with one argument too few; distinct = hash of the format text; non-trivial = "
          "at least two items and one argument",
@@ -346,7 +347,7 @@ PROPS["C12"] = dict(
     quick=[("asan", 16, 40), ("plain", 8, 40)],
     thorough=[("asan", 16, 1500), ("plain", 16, 4000), ("memcheck", 8, 3, {"budget": 900})],
     floors={"quick": {"empty_after_resize_0": 20, "failures_handled_inside_an_enclosing_try": 100, "iterations_with_a_refused_get_in_the_body": 20, "empty_after_draining": 20, "distinct_faults_in_table": 300, "sequence_objects_faulted": 100, "map_objects_faulted": 100,
-                      "string_objects_faulted": 50, "range_objects_faulted": 50, "scalar_objects_faulted": 1}},
+                      "string_objects_faulted": 50, "range_objects_faulted": 50, "scalar_objects_faulted": 1, "fixed_storage_tuples_faulted": 100}},
     exhaustive=False,
     rule="evaluation = one fault (object kind, operation, invalid argument, size) executed with all oracles; the "
          "fixed table is run completely by shard 0, generated cases repeat it at random sizes/contents; distinct = "
@@ -449,7 +450,7 @@ PROPS["C08"] = dict(
                       "dispatches_to_missing_class": 500, "concurrent_cold_start_trials": 200,
                       "random_lookup_histories": 50, "oversized_type_attempts": 1, "terminal_reproducer_runs": 1,
                       "near_name_classes_declared": 200, "undeclared_near_name_lookups": 10000,
-                      "fallback_types": 500, "same_name_type_pairs": 100, "cold_type_objects_used_as_receivers": 1000, "concurrent_warm_method_lookups": 1000000, "fallback_calls_to_empty_member": 3000, "fallback_calls_to_filled_member": 1500}},
+                      "foreach_over_empty_iter_init": 300, "foreach_over_type_without_iter": 100, "foreach_reaching_empty_iter_next": 150, "foreach_complete_walks": 150, "fallback_types": 500, "same_name_type_pairs": 100, "cold_type_objects_used_as_receivers": 1000, "concurrent_warm_method_lookups": 1000000, "fallback_calls_to_empty_member": 3000, "fallback_calls_to_filled_member": 1500}},
     rule="case = a run-time type with a random instance list and all its dispatcher calls, or a random history of "
          "200-600 lookups over all known types (cold or warm), or 10-40 concurrent cold-start trials; the built-in "
          "matrix is enumerated completely by shard 0; distinct = hash of the case description; non-trivial = every "
@@ -478,7 +479,7 @@ PROPS["C13"] = dict(
     timeout={"quick": 900, "thorough": 5400},
     floors={"quick": {"digests_compared_with_solo_run": 100, "mutex_sections": 10000,
                       "mutex_handovers_between_threads": 1000, "trylock_sections_that_had_to_wait": 10,
-                      "join_publish_threads": 100, "cloned_thread_trials": 20, "cold_first_lookup_rounds": 400,
+                      "join_publish_threads": 100, "root_results_received_after_join": 100, "cloned_thread_trials": 20, "cold_first_lookup_rounds": 400,
                       "mutex_phases_started_with_cold_lookups": 20}},
     rule="case = one trial: N threads (2..16) each run a seeded workload alone and then together, then 50-200 "
          "Mutex sections each, then a join-publish round; distinct = hash including the observed lock acquisition "
